@@ -36,6 +36,19 @@ CLAIMED = {
         "IEEE rounding of (position-offset)/interval is not modelled (inputs within 1e-11 of a decision edge are skipped and "
         "counted); hand-written model tied by correspondence only.",
         "DESIGN.md section 5 C07", TECH),
+    "C11": (
+        "Machine-checked Coq theorems: (gate) for ALL integer version triples, every id state and format tag, File._check_header "
+        "opens read-write iff the version equals the library's and read-only iff same major and minor not newer (+ valid id from "
+        "the translated id-requirement version on), wrong format -> InvalidFile, malformed version -> refused; (modes) read-only on a "
+        "missing path errs and creates nothing, overwrite yields an empty file with a fresh header, read-write keeps an existing file "
+        "untouched and creates a missing one; (read-only sessions) for EVERY operation of the modelled API and every state: the "
+        "store is unchanged, an operation that would change the file fails, and what succeeds returns what a writable session "
+        "returns - proven once for all programs of the command monad. Library version / format tag / id-requirement literal are "
+        "regenerated from nixio/file.py on every run. Tie: exhaustive grid of crafted headers opened with the real File.open, and "
+        "random histories with read-only sessions (results, walks, sha256 of the file).",
+        "Trusted: Coq kernel; translator section FileConsts; util.is_uuid abstracted to valid/invalid/missing; byte identity after "
+        "refused/read-only opens and sessions is exercised (sha256), libhdf5 not modelled; API model Nix/Api.v tied by correspondence.",
+        "DESIGN.md section 5 C11", TECH),
 }
 
 PENDING_REASON = ("check not built yet in this revision (work in progress: the property is meant to be decided by Coq "
